@@ -72,7 +72,19 @@ def star_scripts(r):
         out.append(({"sql": sql6, "dialect": "ansi", "metadata": md, "config": {}, "origin": "star-unexpandable"}, ["s.k2.*>s.c.*"]))
         sql7 = f"insert into s.b select * from s.k2;\ninsert into s.b select {c1} from s.a;\ninsert into s.c select * from s.b"
         out.append(({"sql": sql7, "dialect": "ansi", "metadata": md, "config": {}, "origin": "star-unexpandable-then-positional"}, None))
-    return out
+        # a table created earlier names the positions of a later INSERT without column list (select names differ)
+        sql8 = (f"create table s.b as select {c1}, {c2} from s.a;\ninsert into s.b select x, y from s.t0;\n"
+                f"create table s.fin as select {c1} from s.b")
+        out.append(({"sql": sql8, "dialect": "ansi", "metadata": md, "config": {}, "origin": "created-earlier-names-positions"},
+                    sorted([f"s.a.{c1}>s.fin.{c1}", f"s.t0.x>s.fin.{c1}", f"s.a.{c2}>s.b.{c2}", f"s.t0.y>s.b.{c2}"])))
+    # every scenario again with the intermediate table written WITHOUT a schema (the usual staging table): same answers with the
+    # placeholder schema
+    unq = []
+    for rec, exp in out:
+        rec2 = dict(rec, sql=rec["sql"].replace("s.b", "stg"), origin=rec["origin"] + "/unqualified",
+                    metadata={k.replace("s.b", "<default>.stg"): v for k, v in (rec["metadata"] or {}).items()})
+        unq.append((rec2, None if exp is None else sorted(e.replace("s.b.", "<default>.stg.") for e in exp)))
+    return out + unq
 
 
 def core_scripts(r, n):
